@@ -27,7 +27,11 @@ def check(m, run):
     oc.unit_range_rule(m, run, ('insert_knot',))
     run.floor('RG2.no-unit-range-test-for-un-normalised-shapes', 3, 'insert_knot of the three shape classes')
     _skel(m, run)
-    oc.helper_alias_rules(m, run, 'helpers.knot_insertion')
+    # aliasing inside the row helpers is decided by the exact runs on rows of points (KI3: shared rows change together, and the rows handed
+    # in must stay what they were); the rule that reads which stores are deep copies corroborates
+    sem_ok_ = all(o.ok for o in run.obs if o.rule.startswith('KI3'))
+    with run.corroborating(sem_ok_, 'KI3', rules=('AL1.no-shared-cells', 'PU1.rows-not-mutated')):
+        oc.helper_alias_rules(m, run, 'helpers.knot_insertion')
     run.floor('AL1.no-shared-cells', 3, 'deep copies out of the work array of A5.1')
     # the admissibility test relies on the multiplicity count: every knot within the tolerance of the parameter is counted
     from . import c03 as _c03
